@@ -23,24 +23,35 @@ type d14Cfg struct {
 	Cluster      bool `json:"clusterTarget"`
 	IgnoreStatus bool `json:"ignoreStatusChanges"`
 	Finalize     bool `json:"finalizeHook"`
+	// NsAtt: the cluster-scoped target has namespaced attachments
+	NsAtt bool `json:"namespacedAttachmentOfClusterTarget,omitempty"`
 }
 
 func (c d14Cfg) id() string {
-	return fmt.Sprintf("c14-decorator-cl%v-is%v-fin%v", c.Cluster, c.IgnoreStatus, c.Finalize)
+	id := fmt.Sprintf("c14-decorator-cl%v-is%v-fin%v", c.Cluster, c.IgnoreStatus, c.Finalize)
+	if c.NsAtt {
+		id += "-nsatt"
+	}
+	return id
 }
 
 func TestVerif_C14_DecoratorEvents(t *testing.T) {
 	for _, cl := range []bool{false, true} {
 		for _, is := range []bool{false, true} {
 			for _, fin := range []bool{false, true} {
-				c := d14Cfg{cl, is, fin}
-				if !sim.WantCase(c.id()) {
-					continue
+				for _, nsAtt := range []bool{false, true} {
+					if nsAtt && !cl {
+						continue
+					}
+					c := d14Cfg{cl, is, fin, nsAtt}
+					if !sim.WantCase(c.id()) {
+						continue
+					}
+					t.Run(c.id(), func(t *testing.T) {
+						t.Parallel()
+						runD14(t, c)
+					})
 				}
-				t.Run(c.id(), func(t *testing.T) {
-					t.Parallel()
-					runD14(t, c)
-				})
 			}
 		}
 	}
@@ -55,7 +66,9 @@ func runD14(t *testing.T, c d14Cfg) {
 	ai := sim.WidgetInfo
 	if c.Cluster {
 		ti = sim.ClusterThingInfo
-		ai = sim.ClusterWidgetInfo
+		if !c.NsAtt {
+			ai = sim.ClusterWidgetInfo
+		}
 	}
 	cfg := dworldCfg{ID: uid, Targets: []sim.ResourceInfo{ti}, FinalizeHook: c.Finalize, IgnoreStatus: c.IgnoreStatus, CustomizeHook: true,
 		LabelSel:    &metav1.LabelSelector{MatchLabels: map[string]string{"decorate": uid}},
@@ -206,6 +219,9 @@ func runD14(t *testing.T, c d14Cfg) {
 	})
 	// ---- attachment events
 	ans := ns
+	if c.NsAtt {
+		ans = "ans-" + uid
+	}
 	att := func(name string) sim.Obj {
 		o := sim.NewObject(ai, ans, name+"-"+uid)
 		o["spec"] = sim.Obj{"value": "x"}
@@ -218,6 +234,13 @@ func runD14(t *testing.T, c d14Cfg) {
 	expect("attachment-add(owner not selected,finalizer="+fmt.Sprint(len(wantF) > 0)+")", wantF, func() { s.MustCreate(ai.GVR(), sim.AddOwner(att("a3"), tf, true)) })
 	expect("attachment-update(owner not selected,finalizer="+fmt.Sprint(len(wantF) > 0)+")", wantF, touch(ai, ans, "a3-"+uid))
 	expect("attachment-delete(owner not selected,finalizer="+fmt.Sprint(len(wantF) > 0)+")", wantF, func() { s.ExtDelete(ai.GVR(), ans, "a3-"+uid, "") })
+	// the owner reference may carry another version of the target's API group than the one the
+	// decorator watches ("resolves to by kind, name and UID")
+	otherVersion := sim.DeepCopy(ta)
+	otherVersion["apiVersion"] = ti.Group + "/v1beta7"
+	expect("attachment-add(owned,owner reference of another API version)", []string{ka}, func() { s.MustCreate(ai.GVR(), sim.AddOwner(att("a8"), otherVersion, true)) })
+	expect("attachment-update(owned,owner reference of another API version)", []string{ka}, touch(ai, ans, "a8-"+uid))
+	expect("attachment-delete(owned,owner reference of another API version)", []string{ka}, func() { s.ExtDelete(ai.GVR(), ans, "a8-"+uid, "") })
 	wrongUID := sim.DeepCopy(ta)
 	sim.SetNested(wrongUID, "other-uid", "metadata", "uid")
 	expect("attachment-add(owner-right-name-wrong-uid)", none, func() { s.MustCreate(ai.GVR(), sim.AddOwner(att("a4"), wrongUID, true)) })
